@@ -96,6 +96,11 @@ class World:
         s = self.strms[sid]
         r = rng.random()
         on = s['on']
+        if on == 0 and s['status'] in ('NEW', 'NEWRESOLVE') and rng.random() < 0.3:
+            # newer Tors announce that the stream now waits for the controller — right after NEW, typically before a slow
+            # attacher has answered
+            s['status'] = 'CONTROLLER_WAIT'
+            return '%d CONTROLLER_WAIT 0 %s' % (sid, s['target'])
         if on == 0 and built and r < 0.45:
             s['on'] = rng.choice(built)
             s['status'] = 'SENTCONNECT'
